@@ -7,7 +7,7 @@ Require Import BB.Gen.Grammar BB.Gen.TablesXsl.
 Require Import BB.Base.Dict BB.Model.Peg BB.Model.Types BB.Proofs.Tables BB.Proofs.EscapeLossless.
 Require Import BB.Proofs.Totality BB.Proofs.PegPlain BB.Proofs.EscapedTextParses.
 Require Import BB.Model.UnparseDoc BB.Proofs.UnparseText BB.Proofs.PegLine BB.Proofs.WrittenText BB.Proofs.LineRule.
-Require Import BB.Base.Dict BB.Model.Types BB.Model.Peg BB.Gen.TablesParser BB.Model.Convert BB.Model.Eid BB.Model.EidSpec BB.Model.PreParse BB.Model.XmlGen BB.Gen.TablesLibs BB.Proofs.Totality BB.Proofs.PlainLineConvert BB.Proofs.ParagraphRoundTrip.
+Require Import BB.Base.Dict BB.Model.Types BB.Model.Peg BB.Gen.TablesParser BB.Model.Convert BB.Model.Eid BB.Model.EidSpec BB.Model.PreParse BB.Model.XmlGen BB.Gen.TablesLibs BB.Proofs.Totality BB.Proofs.PlainLineConvert BB.Proofs.ParagraphRoundTrip BB.Proofs.HierElement BB.Proofs.HierElementConvert BB.Proofs.SectionRoundTrip.
 
 (* the hand-maintained keyword list of escape-prefixes covers every keyword literal of the grammar,
    except the committed gaps *)
@@ -148,4 +148,30 @@ Example C06_round_trip_example :
   let s := of_string "PART 1 - **x** {{^y}} \\ //z__ P{a b} {{*r}}" in
   let x := para (of_string "sec_2__p_1") s in
   convert (of_string "/akn/za/act/2009/1") (of_string "hier_block_element") (of_string "sec_2") (unparse_doc x) = OkR x.
+Proof. vm_compute. reflexivity. Qed.
+
+(* The round trip of a hierarchical element through the WHOLE pipeline model.  For each of the 34 keywords' elements, every num
+   without blank, dash or backslash, every heading h and paragraph text t without tab or line break and without blanks at their ends
+   ([line_text]) - whatever they spell -: unparsing
+       <tag eId="<prefix__>abbr_num"><num>n</num><heading>h</heading><content><p eId="...__p_1">t</p></content></tag>
+   (keyword line, blank line, indented paragraph, blank line) and converting the written text gives that very element: the keyword
+   the unparser prints names the same element (a table check over the regenerated stylesheet tables), the blank line after the keyword
+   line is layout, num, heading and text read back as themselves (Proofs/SectionRoundTrip.v). *)
+Theorem C06_section_round_trip : forall uri prefix kw n h t root_meta att_meta,
+  assoc_str uri meta_templates = Some (root_meta, att_meta) ->
+  In kw hier_keywords ->
+  num_ok n -> Forall (fun c => c <> TAB /\ c <> 13 /\ c <> 45) n -> clean_num n <> [] -> valid_text n = true ->
+  line_text h -> line_text t ->
+  let tag := hier_name kw in
+  let cand := candidate prefix tag (clean_num n) in
+  let x := hier_x tag [(EID, cand)] [(EID, cand ++ DUSCORE ++ P1)] n h t in
+  convert uri (of_string "hier_element") prefix (unparse_doc x) = OkR x.
+Proof. exact section_round_trip. Qed.
+Print Assumptions C06_section_round_trip.
+
+(* the instance the theorem predicts, evaluated: a subsection whose heading and text spell keywords and markers *)
+Example C06_section_round_trip_example :
+  let x := hier_x (of_string "subsection") [(EID, of_string "chp_2__subsec_3A")] [(EID, of_string "chp_2__subsec_3A__p_1")]
+                  (of_string "(3A)") (of_string "PART 1 - **x** {{^y}} \\ //z") (of_string "SUBHEADING P{a b} __u__ {{*r}}") in
+  convert (of_string "/akn/za/act/2009/1") (of_string "hier_element") (of_string "chp_2") (unparse_doc x) = OkR x.
 Proof. vm_compute. reflexivity. Qed.
